@@ -369,6 +369,7 @@ func (s *c01Session) generation(gen int) {
 	// The retry budget is per pair and counted in requests: candidate arrivals trigger extra check
 	// rounds, so the fault phase also ends as soon as any pair has used maxReq-2 of its requests.
 	reqCount := map[[2]netip.AddrPort]int{}
+	maxUsed := 0 // requests used by the busiest pair, as of the last budgetLeft()
 	budgetLeft := func() bool {
 		d.W.Lock()
 		wire := d.Wire[wireSeen:]
@@ -384,9 +385,13 @@ func (s *c01Session) generation(gen int) {
 				reqCount[k]++
 			}
 		}
+		maxUsed = 0
 		for _, n := range reqCount {
 			if n >= k.maxReq-2 {
 				ok = false
+			}
+			if n > maxUsed {
+				maxUsed = n
 			}
 		}
 		return ok
@@ -397,7 +402,11 @@ func (s *c01Session) generation(gen int) {
 			doOne(c.T.Choose(len(pend), "whichsignal"))
 		} else {
 			remaining := faultEnd - c.Now()
-			// never advance past the end of the fault budget
+			// never advance past the end of the fault budget - neither in time nor in requests: a jump of
+			// n check intervals makes every pair use up to n more of its requests at once
+			if byReq := time.Duration(k.maxReq-2-maxUsed) * k.checkInterval; byReq < remaining {
+				remaining = byReq
+			}
 			saved := d.S.Deltas
 			var ok []time.Duration
 			for _, dl := range saved {
